@@ -275,7 +275,11 @@ func (g *genState) campaign(m int64, noise float64) {
 		down = g.r.Intn(len(seq))
 		up = down + 1 + g.r.Intn(len(seq)-down)
 	}
+	fill := g.r.P(0.1)
 	for i, st := range seq {
+		if fill && (st.Op == "msg" || st.Op == "inj") {
+			g.add("fillq", 0, 0, 0, 0, "")
+		}
 		if i == down {
 			g.add("dbdown", 0, 0, 0, 0, "")
 		}
@@ -466,12 +470,18 @@ func genC13(g *genState) {
 		m := g.pickMsg()
 		switch r.Pick(4, 4, 3, 3, 3, 2, 2, 1, 2) {
 		case 0:
+			if r.P(0.15) {
+				g.add("fillq", 0, 0, 0, 0, "")
+			}
 			g.add("msg", m, 0, 0, 0, "")
 		case 1:
 			g.add("obs", int64(r.Intn(nKeys)), m, int64(r.Intn(13)), int64(r.Intn(64)), "")
 		case 2:
 			g.inbound(m)
 		case 3:
+			if r.P(0.15) {
+				g.add("fillq", 0, 0, 0, 0, "")
+			}
 			g.add("inj", m, int64(r.Intn(5)), 0, 0, "")
 		case 4:
 			dt := []int64{int64(time.Second), int64(29 * time.Second), int64(31 * time.Second), int64(5 * time.Minute), int64(61 * time.Minute), int64(26 * time.Hour)}[r.Intn(6)]
@@ -567,6 +577,21 @@ func genC14(g *genState) {
 	sec := int64(time.Second)
 	min := int64(time.Minute)
 	tickBurst := func() {
+		if g.p.Cfg["loop"] == 1 && r.P(0.5) {
+			// a busy network: something arrives every few seconds while time passes
+			for i := 0; i < 6+r.Intn(60); i++ {
+				g.add("tick", int64(r.Range(2, 14))*sec, 1, 0, 0, "")
+				g.add("obs", g.nonMember(set), encodeMsg(13, 0, 0, 0, 0, 0), 0, 0, "")
+			}
+			return
+		}
+		if r.P(0.07) {
+			// the store is unavailable while cleanup passes run
+			g.add("dbdown", 0, 0, 0, 0, "")
+			g.add("tick", 30*sec, int64(1+r.Intn(12)), 0, 0, "")
+			g.add("dbup", 0, 0, 0, 0, "")
+			return
+		}
 		switch r.Pick(6, 3, 3, 3, 2, 1) {
 		case 0: // regular
 			g.add("tick", 30*sec, int64(1+r.Intn(30)), 0, 0, "")
